@@ -18,7 +18,8 @@
      2  a start handed out something else than the objects built from the data files
      3  after a start a consulted entry is not a complete pickle of the right object
      4  a start that follows a start (no damage in between) compiled or wrote something
-     5  decoder hypothesis contradicted: a truncated / emptied file unpickled, or a complete one did not *)
+     5  decoder hypothesis contradicted: a truncated / emptied file unpickled, or a complete one did not
+     6  a start compiled for a call whose entry was valid (full traces only) *)
 From Coq Require Import String List Bool ZArith Arith.
 From LV Require Import Common.Cases Runtime.Cache.
 From LVGen Require Import SettingsModels.
@@ -144,6 +145,13 @@ Definition same_files (names : list string) (dir : bool) (fl : list (string * xc
 Definition quietb (names : list string) (dir : bool) (fl : list (string * xcontent)) (o : start_obs) : bool :=
   negb (existsb is_compile (so_events o)) && same_files names dir fl (so_dir o) (so_files o).
 
+(* bit 6: checker for  rebuilds only what is damaged : every compile in the trace belongs to a call
+   whose entry was not a complete pickle of its object when the start began *)
+Definition validb (dir : bool) (fl : list (string * xcontent)) (st : step) : bool :=
+  option_eqb xcontent_eqb (look (state_of dir fl) (path (entry_of st))) (Some (xenc (entry_val xconv xdvt st))).
+Definition rebuild_onlyb (dir : bool) (fl : list (string * xcontent)) (o : start_obs) : bool :=
+  forallb (fun st => negb (validb dir fl st)) (rebuilds (so_events o)).
+
 (* bit 5: checker for the decoder observations: load raised iff the content is not a complete pickle *)
 Definition decb (fl : list (string * xcontent)) (obs : list (string * bool)) : bool :=
   forallb (fun fo => match assoc (fst fo) fl with
@@ -155,12 +163,13 @@ Definition decb (fl : list (string * xcontent)) (obs : list (string * bool)) : b
 (* prev = the sequence of the previous start of this round (None: the first start after damage);
    bit 4 applies when the previous start consulted every entry this one consults *)
 Fixpoint starts_code (full : bool) (names : list string) (prev : option (list step)) (dir : bool)
-         (fl : list (string * xcontent)) (l : list start_obs) : list bool * list bool * list bool * list bool * list bool :=
+         (fl : list (string * xcontent)) (l : list start_obs)
+  : list bool * list bool * list bool * list bool * list bool * list bool :=
   match l with
-  | [] => ([], [], [], [], [])
+  | [] => ([], [], [], [], [], [])
   | o :: tl =>
     match starts_code full names (if so_ok o then Some (so_seq o) else None) (so_dir o) (so_files o) tl with
-    | (c0, c1, c2, c3, c4) =>
+    | (c0, c1, c2, c3, c4, c6) =>
       (start_corr full names dir fl o :: c0,
        so_ok o :: c1,
        (negb (so_ok o) || vals_refb o) :: c2,
@@ -168,7 +177,8 @@ Fixpoint starts_code (full : bool) (names : list string) (prev : option (list st
        (match prev with
         | None => true
         | Some ps => negb (so_ok o) || negb (covered ps (so_seq o)) || quietb names dir fl o
-        end :: c4))
+        end) :: c4,
+       (negb (so_ok o) || rebuild_onlyb dir fl o) :: c6)
     end
   end.
 
@@ -176,9 +186,9 @@ Definition all (l : list bool) : bool := forallb (fun b => b) l.
 
 Definition round_code (full : bool) (names : list string) (r : round_obs) : nat :=
   match starts_code full names None (ro_dir r) (ro_files r) (ro_starts r) with
-  | (c0, c1, c2, c3, c4) =>
+  | (c0, c1, c2, c3, c4, c6) =>
     bit 0 (all c0) + bit 1 (all c1) + bit 2 (all c2) + bit 3 (all c3) + bit 4 (all c4)
-    + bit 5 (decb (ro_files r) (ro_dec r))
+    + bit 5 (decb (ro_files r) (ro_dec r)) + bit 6 (negb full || all c6)
   end.
 
 Fixpoint nat_lor_bits (a b : nat) (k : nat) : nat :=
@@ -188,4 +198,4 @@ Fixpoint nat_lor_bits (a b : nat) (k : nat) : nat :=
   end.
 
 Definition cache_case_code (c : cache_case) : nat :=
-  fold_left (fun acc r => nat_lor_bits acc (round_code (cc_full c) (cc_names c) r) 6) (cc_rounds c) 0.
+  fold_left (fun acc r => nat_lor_bits acc (round_code (cc_full c) (cc_names c) r) 7) (cc_rounds c) 0.
